@@ -194,13 +194,39 @@ fn mirror(case: &TreeCase, k: u8, with_extras: bool) -> (Vec<Call>, TreeSpec, us
             calls.push(Call::Put(i, vec![i as u8; 1 + (i % 3) * 4]));
         }
     }
+    // some of g's data are read before the merge, where that collects nothing (the model decides)
+    {
+        let mut r = Runner::new(Cfg { n: 16, cap: len + 4 });
+        for c in &calls {
+            r.step(c);
+        }
+        for i in 0..len {
+            if (case.n_sel as usize >> (i % 8)) & 1 == 1 && r.m.present(i) {
+                let v = r.m.get(i);
+                if v.unread && v.group.is_some_and(|g| r.m.unread_in_group(g) > 1) {
+                    let c = Call::Data(i);
+                    r.step(&c);
+                    calls.push(c);
+                }
+            }
+        }
+    }
     let rev = case.left_sel & 1 == 1;
     let nodes: Vec<TNode> = (0..len)
         .map(|i| TNode {
             id: if rev { len - 1 - i } else { i },
             parent: if i == 0 { None } else { Some(i - 1) },
             label: if i == 0 { None } else { Some(labs[i % 2].clone()) },
-            data: if (case.cap_sel as usize >> (i % 8)) & 1 == 1 { Some(vec![0x40 + i as u8; 2 + (i % 2) * 8]) } else { None },
+            // a third of h's data are byte-identical to what g holds at the same place
+            data: if (case.cap_sel as usize >> (i % 8)) & 1 == 1 {
+                if (case.order_sel >> (i % 16)) & 1 == 1 && (case.left_sel as usize + i) % 3 != 0 {
+                    Some(vec![i as u8; 1 + (i % 3) * 4])
+                } else {
+                    Some(vec![0x40 + i as u8; 2 + (i % 2) * 8])
+                }
+            } else {
+                None
+            },
             read: false,
         })
         .collect();
@@ -442,8 +468,17 @@ fn tree_strategy() -> BoxedStrategy<TreeCase> {
 
 fn case_cfg(case: &TreeCase) -> Cfg {
     let n = if case.wide.is_some() && case.n_sel & 1 == 0 { 16 } else { gen::pick_n(case.n_sel) };
+    if let Some(k) = case.mirror {
+        if case.n_sel & 4 == 4 {
+            // tight store: the merge of the mirror chains creates nothing, so this is within the limits
+            let len = 2 * (1 + (k as usize % 13));
+            return Cfg { n, cap: len + (case.cap_sel as usize % 3) };
+        }
+    }
     let need = case.g.len() + case.h.len() + 2 * case.junk.len() + 6 + if case.wide.is_some() || case.mirror.is_some() { 40 } else { 0 };
-    let cap = gen::pick_cap(case.cap_sel).max(need);
+    // sometimes a store with no slack beyond what the construction can need
+    let need = if case.n_sel & 12 == 8 && case.wide.is_none() && case.mirror.is_none() { case.g.len() + case.h.len() + 2 * case.junk.len() } else { need };
+    let cap = if case.n_sel & 12 == 8 { need.max(2) } else { gen::pick_cap(case.cap_sel).max(need) };
     Cfg { n, cap }
 }
 
